@@ -27,21 +27,22 @@ RULES = {}  # id -> Rule
 
 
 class Rule:
-    def __init__(self, rid, props, template, floor, fn, doc, tier, fallback=()):
+    def __init__(self, rid, props, template, floor, fn, doc, tier, fallback=(), anchor_fallback=()):
         self.id, self.props, self.template, self.floor, self.fn = rid, tuple(props), template, floor, fn
         self.doc = doc
         self.tier = tier
         self.fallback = tuple(fallback)
+        self.anchor_fallback = tuple(anchor_fallback)
 
 
-def rule(rid, props, template, floor=1, tier="quick", fallback=()):
+def rule(rid, props, template, floor=1, tier="quick", fallback=(), anchor_fallback=()):
     """Register a rule.  ``floor``: minimum number of obligations the rule must examine on a
     tree where its anchors exist (instance floor; below it the run is an ANALYSIS-ERROR)."""
 
     def deco(fn):
         if rid in RULES:
             raise RuntimeError(f"duplicate rule id {rid}")
-        RULES[rid] = Rule(rid, props, template, floor, fn, (fn.__doc__ or "").strip(), tier, fallback)
+        RULES[rid] = Rule(rid, props, template, floor, fn, (fn.__doc__ or "").strip(), tier, fallback, anchor_fallback)
         return fn
 
     return deco
@@ -226,6 +227,16 @@ class Run:
                     ctx.notes.append(f"deferred to {', '.join(r.fallback)} (shape-independent, held): {why}")
                     ctx.deferred = True
                     ctx.violations = []  # verdicts of a model that does not fit the code's shape are not trusted
+                    self.results[i] = (r, ctx, None)
+        # A rule anchored in one *representation* of some state (an attribute it names) that has lost that anchor defers to rules that
+        # decide the same behaviour from the outside (histories judged by effects only) - when those ran and held.  Only the vanished
+        # anchor is deferred: findings and other errors of the rule stand.
+        for i, (r, ctx, err) in enumerate(self.results):
+            if err and err.startswith("anchor vanished") and getattr(r, "anchor_fallback", ()) and not ctx.violations:
+                fbs = [by_id.get(fid) for fid in r.anchor_fallback]
+                if all(fb is not None and fb[2] is None and not fb[1].violations for fb in fbs):
+                    ctx.notes.append(f"deferred to {', '.join(r.anchor_fallback)} (representation-independent, held): {err}")
+                    ctx.deferred = True
                     self.results[i] = (r, ctx, None)
         return self
 
